@@ -41,7 +41,8 @@ def _tid():
 
 
 class Recorder:
-    """global log of shared-state accesses; entry = [tid, kind, args, result, library calls entered by tid so far]"""
+    """global log of shared-state accesses; entry = [tid, kind, args, result, library calls entered by tid so far,
+    [calls entered when the access began, … when it returned]]"""
 
     def __init__(self):
         self.log = []
@@ -54,6 +55,22 @@ class Recorder:
 
 
 _PATCHED = {}
+
+
+def _calls_now():
+    """library calls the calling thread has entered so far (None outside a scheduled run)"""
+    s = _REC.sched if _REC is not None else None
+    t = _tid()
+    return s.counts[t] if s is not None and t < len(s.counts) else None
+
+
+def _extent(entry, c_in):
+    """entry[5] = [library calls entered by the thread when the shared access began, … when it returned]: the
+    DYNAMIC EXTENT of the access.  The call boundaries inside it are where a thread sits between two steps of one
+    logical access (check … act, insert … trim … re-read)"""
+    while len(entry) < 5:
+        entry.append(None)
+    entry.append([c_in, _calls_now()])
 
 
 def install_wrappers():
@@ -82,9 +99,12 @@ def install_wrappers():
         o_set = CS.set_document_context
 
         def set_document_context(self, *a, **k):
+            c_in = _calls_now()
             r = o_set(self, *a, **k)
             if _REC is not None:
-                _REC.add([_tid(), "set", quiet_read_ctx(), None])
+                e = [_tid(), "set", quiet_read_ctx(), None]
+                _REC.add(e)
+                _extent(e, c_in)
             return r
 
         CS.set_document_context = set_document_context
@@ -93,9 +113,12 @@ def install_wrappers():
         o_clear = CS.clear_document_context
 
         def clear_document_context(self, *a, **k):
+            c_in = _calls_now()
             r = o_clear(self, *a, **k)
             if _REC is not None:
-                _REC.add([_tid(), "clear", None, None])
+                e = [_tid(), "clear", None, None]
+                _REC.add(e)
+                _extent(e, c_in)
             return r
 
         CS.clear_document_context = clear_document_context
@@ -109,6 +132,7 @@ def install_wrappers():
             if rec is None:
                 return o_get(self, color, used_colors, *a, **k)
             entry = [_tid(), "lookup", [color, None if used_colors is None else list(used_colors)], None]
+            c_in = _calls_now()
             if not _observed() or _PATCHED.get("lookup_code") is None:
                 rec.add(entry)
             else:
@@ -125,6 +149,7 @@ def install_wrappers():
                 if getattr(_tls, "pending", None) is entry:   # tracer never saw the call
                     _tls.pending = None
                     rec.add(entry)
+                _extent(entry, c_in)
 
         CS.get_rtf_color_index = get_rtf_color_index
         status["lookup"] = True
@@ -135,20 +160,28 @@ def install_wrappers():
         o_sget = SR.get.__func__
 
         def register(cls, name, strategy_cls):
+            c_in = _calls_now()
             r = o_reg(cls, name, strategy_cls)
             if _REC is not None:
-                _REC.add([_tid(), "reg", [name, getattr(strategy_cls, "__name__", repr(strategy_cls))], None])
+                e = [_tid(), "reg", [name, getattr(strategy_cls, "__name__", repr(strategy_cls))], None]
+                _REC.add(e)
+                _extent(e, c_in)
             return r
 
         def get(cls, name):
+            c_in = _calls_now()
             try:
                 r = o_sget(cls, name)
             except Exception as e:  # noqa: BLE001
                 if _REC is not None:
-                    _REC.add([_tid(), "get", [name], f"raise {type(e).__name__}"])
+                    e2 = [_tid(), "get", [name], f"raise {type(e).__name__}"]
+                    _REC.add(e2)
+                    _extent(e2, c_in)
                 raise
             if _REC is not None:
-                _REC.add([_tid(), "get", [name], getattr(r, "__name__", repr(r))])
+                e = [_tid(), "get", [name], getattr(r, "__name__", repr(r))]
+                _REC.add(e)
+                _extent(e, c_in)
             return r
 
         SR.register = classmethod(register)
